@@ -145,6 +145,45 @@ func TestVerifDriverC16(t *testing.T) {
 			fail("binary double round trip of bits %#x: read bits %#x err %v, %d left unread", b, math.Float64bits(r), err, bbuf.Len())
 		}
 	}
+	// field and list headers of the compact protocol, against every previous field id
+	// of a boundary family (the writer's and the reader's lastFieldId start equal)
+	types := []TType{BYTE, DOUBLE, I16, I32, I64, STRING, STRUCT, MAP, SET, LIST}
+	lastIDs := []int{0, 1, 2, 15, 16, 100, 32751, 32752, 32766, 32767, -1, -15, -16, -32768}
+	ids := []int16{0, 1, 2, 14, 15, 16, 17, 100, 127, 128, 8191, 8192, 32766, 32767, -1, -2, -64, -65, -32768}
+	for _, v := range vals[:nModel] {
+		ids = append(ids, int16(v))
+		lastIDs = append(lastIDs, int(int16(v)))
+	}
+	for _, last := range lastIDs {
+		for _, id := range ids {
+			for _, ty := range types {
+				buf.Reset()
+				p.lastFieldId = last
+				if err := p.WriteFieldBegin("f", ty, id); err != nil {
+					fail("WriteFieldBegin(type %d, id %d) after id %d: %v", ty, id, last, err)
+				}
+				after := p.lastFieldId
+				p.lastFieldId = last
+				_, rty, rid, err := p.ReadFieldBegin()
+				if err != nil || rty != ty || rid != id || buf.Len() != 0 || p.lastFieldId != after {
+					fail("field header (type %d, id %d) after id %d: read (type %d, id %d) err %v, %d bytes left, last id %d on the reading side, %d on the writing side", ty, id, last, rty, rid, err, buf.Len(), p.lastFieldId, after)
+				}
+			}
+		}
+	}
+	p.lastFieldId = 0
+	for _, size := range []int{0, 1, 2, 13, 14, 15, 16, 17, 127, 128, 16383, 16384, 1 << 20, math.MaxInt32} {
+		for _, ty := range append([]TType{BOOL}, types...) {
+			buf.Reset()
+			if err := p.WriteListBegin(ty, size); err != nil {
+				fail("WriteListBegin(type %d, size %d): %v", ty, size, err)
+			}
+			rty, rsize, err := p.ReadListBegin()
+			if err != nil || rty != ty || rsize != size || buf.Len() != 0 {
+				fail("list header (type %d, size %d): read (type %d, size %d) err %v, %d bytes left", ty, size, rty, rsize, err, buf.Len())
+			}
+		}
+	}
 	// strings: the length prefix and the bytes (model values are lengths here)
 	var lens []int
 	for _, v := range vals[:nModel] {
